@@ -238,9 +238,10 @@ func c19Device(ctx context.Context, cw *c19World, p c19Plan, delay func()) (out 
 		return
 	}
 	out.guid0 = d.Cred.GUID
+	opStart := time.Now()
 	ov, err := cw.back.RemoveVoucher(ctx, d.Cred.GUID)
 	if err != nil {
-		out.phase, out.err = "resale", err.Error()
+		out.phase, out.err, out.lastDur = "resale", err.Error(), time.Since(opStart)
 		return
 	}
 	// the certificate the manufacturer issued in this device's DI session is this device's
@@ -258,8 +259,9 @@ func c19Device(ctx context.Context, cw *c19World, p c19Plan, delay func()) (out 
 		out.phase, out.err = "resale", err.Error()
 		return
 	}
+	opStart = time.Now()
 	if err := cw.back.AddVoucher(ctx, ext); err != nil {
-		out.phase, out.err = "resale", err.Error()
+		out.phase, out.err, out.lastDur = "resale", err.Error(), time.Since(opStart)
 		return
 	}
 	dns := "owner.lab"
@@ -393,14 +395,16 @@ func c19Concurrent(x *runCtx, r *rand.Rand, backend string, n, procs int, delays
 	tokenOwner := map[string]int{}
 	guidOwner := map[protocol.GUID]int{}
 	for i, o := range outs {
-		if o.phase != "" && strings.Contains(o.err, "database is locked") && o.lastDur > 9*time.Second {
-			// the request waited out the store's whole busy timeout (10 s) before it was refused: an overloaded machine,
-			// not the library (a store without busy timeout, or a lock that cannot be waited for, answers at once)
+		if o.phase != "" && (strings.Contains(o.err, "database is locked") || (backend == "sqlite" && strings.Contains(o.err, "invalid session"))) && o.lastDur > 9*time.Second {
+			// the request (or the direct store operation of the resale step) waited out the store's whole busy timeout (10 s)
+			// before it was refused: an overloaded machine, not the library (a store without busy timeout, or a lock that
+			// cannot be waited for, answers at once). "invalid session" is how the SQLite store reports that it could not
+			// read its token secret (sessionID → loadOrStoreSecret, an INSERT OR IGNORE and a SELECT per call).
 			x.r.Distribution["device-runs-skipped:busy-timeout-expired-on-overloaded-machine"]++
 			continue
 		}
 		if o.phase != "" {
-			viol(fmt.Sprintf("device-failed-under-concurrency:%s", o.phase), fmt.Sprintf("device %d (%s/%v/%s/%s): %s: %s trace=%v", i, plans[i].kind.Name, plans[i].enc, plans[i].suite, plans[i].ciph, o.phase, o.err, o.trace))
+			viol(fmt.Sprintf("device-failed-under-concurrency:%s", o.phase), fmt.Sprintf("device %d (%s/%v/%s/%s): %s: %s trace=%v (the failing operation took %v)", i, plans[i].kind.Name, plans[i].enc, plans[i].suite, plans[i].ciph, o.phase, o.err, o.trace, o.lastDur.Round(time.Millisecond)))
 			continue
 		}
 		for t := range o.tokens {
